@@ -363,6 +363,11 @@ func (w *twkbWriter) writeMultiPoint(mp MultiPoint) error {
 
 	for i := 0; i < numPoints; i++ {
 		pt := mp.PointN(i)
+		if pt.IsEmpty() {
+			// TWKB has no representation for an empty Point inside a non-empty
+			// MultiPoint; writing it would invent a coordinate.
+			return fmt.Errorf("cannot represent the empty Point at index %d of a non-empty MultiPoint", i)
+		}
 		w.writePointCoords(pt)
 	}
 	return nil
